@@ -1,7 +1,7 @@
 -------------------------------- MODULE CtxOp --------------------------------
 (* Context-aware I/O (netctx.Conn, netctx.PacketConn, connctx — C17), seen    *)
-(* from outside: one client performs operations one after the other on a      *)
-(* wrapped connection whose deadline register and transfers are observable.   *)
+(* from outside: clients perform operations on a wrapped connection whose       *)
+(* deadline register and transfers are observable.                            *)
 (*   call{p,ctx}      the client starts an operation under context ctx         *)
 (*   cancel{ctx}      the context is cancelled (or times out)                  *)
 (*   feed             the wrapped connection becomes able to transfer one unit *)
@@ -12,30 +12,32 @@
 EXTENDS Integers, Sequences, FiniteSets, TLC
 VARIABLES cancelled,   \* set of cancelled contexts
           avail,       \* units the wrapped connection can still transfer without blocking
-          op,          \* operation in flight: [p, ctx, moved] or NoOp
+          ops,         \* operations in flight: set of [p, ctx, moved] (one per caller; several callers
+                       \* may use one wrapper at the same time, the wrapper serialises them)
           reg          \* deadline register of the wrapped connection: "zero" | "old"
-cvars == <<cancelled, avail, op, reg>>
-NoOp == [p |-> -1, ctx |-> "", moved |-> 0]
-CInit == cancelled = {} /\ avail = 0 /\ op = NoOp /\ reg = "zero"
+cvars == <<cancelled, avail, ops, reg>>
+CInit == cancelled = {} /\ avail = 0 /\ ops = {} /\ reg = "zero"
 
-Call(p, ctx) == op = NoOp /\ op' = [p |-> p, ctx |-> ctx, moved |-> 0] /\ UNCHANGED <<cancelled, avail, reg>>
-Cancel(ctx) == cancelled' = cancelled \cup {ctx} /\ UNCHANGED <<avail, op, reg>>
-Feed == avail' = avail + 1 /\ UNCHANGED <<cancelled, op, reg>>
-\* the wrapped call of the operation in flight transferred n > 0 bytes
-Xfer(n) == /\ op # NoOp /\ avail > 0 /\ n > 0
-           /\ avail' = avail - 1 /\ op' = [op EXCEPT !.moved = @ + n] /\ UNCHANGED <<cancelled, reg>>
+Call(p, ctx) == (\A o \in ops : o.p # p) /\ ops' = ops \cup {[p |-> p, ctx |-> ctx, moved |-> 0]} /\ UNCHANGED <<cancelled, avail, reg>>
+Cancel(ctx) == cancelled' = cancelled \cup {ctx} /\ UNCHANGED <<avail, ops, reg>>
+Feed == avail' = avail + 1 /\ UNCHANGED <<cancelled, ops, reg>>
+\* the wrapped call of an operation in flight transferred n > 0 bytes (which one is not observable)
+Xfer(n) == /\ avail > 0 /\ n > 0 /\ avail' = avail - 1 /\ UNCHANGED <<cancelled, reg>>
+           /\ \E o \in ops : ops' = (ops \ {o}) \cup {[o EXCEPT !.moved = @ + n]}
 \* Return.  err: "nil" | "ctx" (the context's error) | "timeout" | "other"
 Ret(p, n, err, r) ==
-    /\ op # NoOp /\ op.p = p
-    /\ n = op.moved                                  \* reports exactly what was transferred
+    \E o \in ops :
+    /\ o.p = p
+    /\ n = o.moved                                   \* reports exactly what was transferred
     /\ IF n > 0 THEN err \in {"nil", "ctx"}
-       ELSE /\ op.ctx \in cancelled                  \* returning empty-handed needs a cancelled context:
+       ELSE /\ o.ctx \in cancelled                   \* returning empty-handed needs a cancelled context:
             /\ err = "ctx"                           \* no leftover deadline may time out a live operation
     /\ r = "zero"                                    \* no deadline left behind
-    /\ reg' = r /\ op' = NoOp /\ UNCHANGED <<cancelled, avail>>
+    /\ reg' = r /\ ops' = ops \ {o} /\ UNCHANGED <<cancelled, avail>>
 \* at rest: an operation still in flight must be waiting legitimately (live context, nothing to transfer)
 Quiesce(pending, r, leaked) ==
-    /\ IF op = NoOp THEN pending = {} /\ r = "zero" /\ leaked = 0
-       ELSE pending = {op.p} /\ op.ctx \notin cancelled /\ avail = 0
+    /\ pending = {o.p : o \in ops}
+    /\ \A o \in ops : o.ctx \notin cancelled /\ avail = 0
+    /\ ops = {} => (r = "zero" /\ leaked = 0)
     /\ UNCHANGED cvars
 =============================================================================
